@@ -21,6 +21,7 @@ func init() {
 }
 
 func runC07(c *Ctx) {
+	c.Rule("R7.6", 3, "every precedence level written reaches the recorded list (and with it the verifier of the levels)")
 	c.Rule("R7.1", 8, "every verifier runs and is heard; success only with a nil aggregate")
 	c.Rule("R7.2", 3, "predefined names are the documented ones; unknown names are errors")
 	c.Rule("R7.3", 10, "definition bookkeeping: one self-definition per literal, one per declaration, both defects reported")
@@ -41,6 +42,16 @@ func runC07(c *Ctx) {
 	checkPredefs(c, ev)
 	checkBookkeeping(c)
 	checkPatternErrors(c)
+	// a handle listed in two levels is reported by the levels' verifier, which sees the recorded list: every directive must get there
+	{
+		before := len(c.Obs)
+		checkPrecedenceStore(c)
+		for i := before; i < len(c.Obs); i++ {
+			if c.Obs[i].Rule == "R12.3" {
+				c.Obs[i].Rule = "R7.6"
+			}
+		}
+	}
 	checkEscapeResolver(c, "R7.5", sp)
 }
 
@@ -918,6 +929,38 @@ func checkPatternRoute(c *Ctx, rule string, fns ...*ssa.Function) {
 		for _, b := range fn.Blocks {
 			if ifi, ok := b.Instrs[len(b.Instrs)-1].(*ssa.If); ok && isFlag(ifi.Cond) {
 				tests++
+			}
+		}
+		// both routes compile the same field of the definition: the literal's characters are its value, not its name
+		fieldOfArg := func(v ssa.Value) string {
+			for _, r := range rootsOf(fn, v, nil) {
+				if fa, ok := r.(*ssa.FieldAddr); ok {
+					return fieldName(fa)
+				}
+			}
+			return ""
+		}
+		patField := ""
+		allCalls(fn, func(call ssa.CallInstruction) {
+			cv, ok := call.(*ssa.Call)
+			if !ok {
+				return
+			}
+			callee := cv.Call.StaticCallee()
+			if callee == nil || callee.Pkg != fn.Pkg || callee.Signature.Params().Len() != 1 || callee.Signature.Results().Len() != 2 {
+				return
+			}
+			if isString(callee.Signature.Params().At(0).Type()) && isErr(callee.Signature.Results().At(1).Type()) {
+				if f := fieldOfArg(cv.Call.Args[0]); f != "" {
+					patField = f
+				}
+			}
+		})
+		for _, lc := range litCalls {
+			if lf := fieldOfArg(lc.Call.Args[0]); lf != "" && patField != "" {
+				c.Check(rule, "a literal's automaton spells the definition's value, the field the pattern route compiles too", lc.Pos(), lf == patField,
+					"the literal route is given the definition's "+lf+" while the pattern route compiles its "+patField+": a named string token (ARROW = \"->\") is recognised by its name instead of its text",
+					"ARROW = \"->\";  the scanner then accepts the text ARROW and not ->")
 			}
 		}
 		for _, lc := range litCalls {
